@@ -126,6 +126,38 @@ CLAIMED = {
         "Trusted: Lean kernel (+ Batteries list permutations); correspondence for the histories producing the indexes.",
         "Lean 4 proof (canonicity of equality via the dense abstraction; argmax of the counter) + cross-history correspondence",
         "DESIGN.md §5 C15"),
+    "C03": (
+        "Lean 4 theorem (exact arithmetic over Q): for every aggregate (count, valid_count, sum, mean), weight form, fact "
+        "form and missing policy, the index-cube model (walk + fill + marginal differencing of each region), the "
+        "array-cube model (bincount over strided coordinates; mixed-radix injectivity proved) and the direct per-cell "
+        "computation coincide on every output cell; every region is shown to be a per-cell sum for any additive commutative "
+        "group. Partial w.r.t. float64: rounding is outside the model; the 1e-8 near-zero rule of the index cube appears "
+        "as an explicit hypothesis. Tie: real ccube and xcube vs the model, exactly, on the dyadic stream; oracle = direct "
+        "Fraction group-by on the real code's outputs (exact on dyadic inputs, 1e-9 x total on general doubles).",
+        "Trusted: Lean kernel + Mathlib Finset sums/Rat order; the aggregate model is one fact column at a time; NumPy "
+        "bincount/nansum/boolean masks are modelled as list sums; IEEE-754 only through the exact stream.",
+        "Lean 4 proof (measure cubes = per-cell sums; mixed radix) + exact-stream correspondence of both cube types",
+        "DESIGN.md §5 C03"),
+    "C04": (
+        "Lean 4 theorems: the missing-cell rule of the reference computation in terms of the rows of the cell (no valid "
+        "row / some missing row unless ignored / mean with zero valid weight; unweighted count: no row), which by C03 is "
+        "the rule of both cube types; the three report formats render the same missing set and identical values elsewhere; "
+        "the computed cell does not depend on the format (the documented valid_count shortcut excluded). Tie/oracle: every "
+        "aggregate x both cube types x five formats on the real code, rule checked per cell from the rows, formats "
+        "cross-compared, model rendering compared.",
+        "Trusted: as C03. What a missing cell holds (sentinel possibly truncated by an integer region) is not part of the "
+        "property and is not compared.",
+        "Lean 4 proof (decision logic over counters) + cross-format correspondence",
+        "DESIGN.md §5 C04"),
+    "C05": (
+        "Lean 4 theorems: every aggregate of the index cube is a function of the dense content of its dimensions only "
+        "(from C03), and shift_common(v) leaves the dense column of a cube dimension unchanged (from C06) for any v>=0 — "
+        "hence replacing a dimension by any re-encoding changes no cell, missing cells included. Tie/oracle: for every "
+        "dimension and every v in 0..extent (+ one outside) the real cube outputs of all aggregates are compared with the "
+        "unshifted cube, also after re-normalising; model count cube of the shifted dims compared.",
+        "Trusted: as C03/C06; both cubes use the same explicit extents covering both commons.",
+        "Lean 4 proof (corollary of the refinement theorems) + re-encoding sweep on the real code",
+        "DESIGN.md §5 C05"),
 }
 PENDING = {}
 
